@@ -9,3 +9,22 @@ Local Open Scope Z_scope.
 Theorem C17_header_members_in_order : stmt_member_offsets_in_order.
 Proof. exact member_offsets_in_order. Qed.
 Print Assumptions C17_header_members_in_order.
+
+From Sbepp Require Import Cursor CursorSpec Checked ScriptSpec FillProofs.
+
+(* the filler (the generated sequence of member assignments) writes exactly the
+   listed members into the header bytes and nothing else *)
+Theorem C17_filler_is_put_fills_on_header : stmt_do_fills_spec.
+Proof. exact do_fills_spec. Qed.
+Print Assumptions C17_filler_is_put_fills_on_header.
+
+(* no byte outside the header changes *)
+Theorem C17_filler_frame : stmt_do_fills_frame.
+Proof. exact do_fills_frame. Qed.
+Print Assumptions C17_filler_frame.
+
+(* afterwards every filled member reads back as the schema's value (schemaId,
+   templateId, version, compiled blockLength, numInGroup argument, counters) *)
+Theorem C17_filled_members_hold_schema_values : stmt_do_fills_values.
+Proof. exact do_fills_values. Qed.
+Print Assumptions C17_filled_members_hold_schema_values.
